@@ -341,6 +341,28 @@ class Gen:
         x = r.random()
         if d <= 0 or x < 0.30:
             return self.simple(env)
+        if x < 0.33:
+            # a condition that folds at compile time: a loop that never runs, an if with a dead arm
+            zero_vals = [v for v, val in sorted(self.gvals.items()) if val == 0 and v in env.ints]
+            one_vals = [v for v, val in sorted(self.gvals.items()) if val != 0 and v in env.ints]
+            falses = [('bool', False), lit(0), ('bin', '<', lit(1), lit(0)), ('not', ('bool', True)), ('bin', '-', lit(4), lit(4)),
+                      ('bin', '=', lit(2), lit(3)), ('bin', 'and', ('bool', True), ('bool', False))] + [('var', v) for v in zero_vals]
+            trues = [('bool', True), lit(1), ('bin', '<', lit(0), lit(1)), ('not', ('bool', False)), ('bin', '=', lit(3), lit(3))] + [('var', v) for v in one_vals]
+            e1 = env.fork()
+            body = self.stmt(e1, d - 1)
+            if body == ('skip',):
+                body = ('seq', [('skip',), ('skip',)])
+            if r.random() < 0.5:
+                return ('while', r.choice(falses), body)          # nothing assigned inside counts as assigned afterwards
+            e2 = env.fork()
+            other = self.stmt(e2, d - 1)
+            if r.random() < 0.5:
+                st = ('if', r.choice(trues), other, body)
+            else:
+                st = ('if', r.choice(falses), body, other)
+            env.ints = list(e2.ints)
+            env.safe = list(e2.safe)
+            return st
         if x < 0.52:
             c = self.bool_expr(env, r.randint(1, 3), FULL if not env.pure_only else PURE)
             e1 = env.fork()
@@ -855,13 +877,25 @@ _PPOOL = ['q' + ''.join('_' + x for x in c) for n in range(3) for c in itertools
 _VPOOL = ['_'.join(c) for n in range(1, 4) for c in itertools.product('rstu', repeat=n)]
 
 
-def confuse_names(P, r):
+# names that look like the labels the compiler generates for itself (with and without the underscore it puts in front)
+_LPOOL_PROC = ['lab%d' % i for i in range(0, 40, 2)] + ['const1', 'string1', 'startup', 'exit0', 'main0']
+_LPOOL_VAR = ['start', 'exit', 'sp', 'data'] + ['lab%d' % i for i in range(1, 240, 2)] + ['const%d' % i for i in (0, 2, 3)] + ['string%d' % i for i in (0, 2, 3)]
+
+
+def confuse_names(P, r, pools=None):
     """Rename every identifier into a family in which one name is a prefix of another up to an underscore (procedures q, q_r, q_r_s,
-    ...; variables r, r_s, s, ...), so that scope-qualified names such as q_r + s and q + r_s coincide textually.  The renaming is
-    done on the printed program and parsed back, which keeps it consistent across scopes (same old name -> same new name)."""
-    pp, vp = list(_PPOOL), list(_VPOOL)
+    ...; variables r, r_s, s, ...), so that scope-qualified names such as q_r + s and q + r_s coincide textually - or, with the
+    label-like pools, into names such as start, exit, lab3, const0, string0.  The renaming is done on the printed program and parsed
+    back, which keeps it consistent across scopes (same old name -> same new name)."""
+    pp, vp = (list(_PPOOL), list(_VPOOL)) if pools is None else (list(pools[0]), list(pools[1]))
     r.shuffle(pp)
-    r.shuffle(vp)
+    if pools is None:
+        r.shuffle(vp)
+    else:
+        head, tail = vp[:4], vp[4:]      # start, exit, sp, data are used first
+        r.shuffle(head)
+        r.shuffle(tail)
+        vp = tail + head                 # pop() takes from the end
     mapping = {}
     try:
         for p in P['procs']:
@@ -884,6 +918,10 @@ def confuse_names(P, r):
 def gen_program(r, tier='quick', mode='normal'):
     g = Gen(r, Cfg(tier, mode))
     P, inp, files = g.program()
-    if mode == 'normal' and r.random() < 0.08:
-        P = confuse_names(P, r)
+    if mode == 'normal':
+        x = r.random()
+        if x < 0.08:
+            P = confuse_names(P, r)
+        elif x < 0.13:
+            P = confuse_names(P, r, pools=(_LPOOL_PROC, _LPOOL_VAR))
     return P, inp, files
